@@ -805,7 +805,18 @@ class History:
             # a mapping zipped together from NumPy arrays: keys and values are NumPy scalars
             arg = {numpy.int64(k): numpy.int64(v) for k, v in mp.items()}
             self.ctx.count("reindexed:mapping_of_numpy_scalars")
+        if rng.random() < 0.15:
+            # a dict subclass with a default factory: values it does not mention still keep their value (the
+            # documented rule reads them with .get) and the mapping itself must come back unchanged
+            import collections
+
+            arg = collections.defaultdict(int, mp)
+            self.ctx.count("reindexed:mapping_is_a_defaultdict")
+        argsnap = dict(arg)
         res = r.x.reindexed(arg, copy=copy, shift=shift, assume_unique=au)
+        if dict(arg) != argsnap:
+            self.violation("operand-mutated:reindexed-mapping-object",
+                           "reindexed changed the mapping object it was given: %r -> %r" % (sorted(argsnap.items())[:6], sorted(dict(arg).items())[:8]))
         mm = numpy.array([mp.get(int(v), int(v)) for v in r.m.ravel().tolist()], dtype=I64).reshape(r.m.shape)
         live = Live(res, mm, "reindexed")
         self.unchanged(snap, r.x, "reindexed(receiver)")
